@@ -22,6 +22,8 @@ Import ListNotations.
 Open Scope bool_scope.
 Open Scope Z_scope.
 
+Module SynM.
+
 (* ------------------------------------------------------------------ syntax tree *)
 
 Record account := mkAccount { acc_range : range; acc_macro : bool }.
@@ -476,4 +478,7 @@ Definition parse_env (E : env) : parse_result :=
 
 (* the parser for given letter / digit classifications, with Go's UTF-8 decoder *)
 Definition parse_text (letter digit : Z -> bool) (t : str) : parse_result :=
-  parse_env (mk_env Utf8.decode letter digit t).
+  parse_env (mk_env Utf8M.decode letter digit t).
+
+End SynM.
+Export SynM.
